@@ -1,6 +1,6 @@
 (* C12 - batch evaluation (evaluate_v). *)
 From Coq Require Import List Bool ZArith.
-Require Import PP.FloatModel PP.FloatOrder PP.Model.PwModel PP.Proofs.C02Proofs PP.Proofs.EvalVProofs PP.Proofs.C12Proofs.
+Require Import PP.FloatModel PP.FloatOrder PP.Model.PwModel PP.Proofs.C02Proofs PP.Proofs.EvalVProofs PP.Proofs.C12Proofs PP.Proofs.EvalVOnline.
 Import ListNotations.
 
 (* PwModel.ev_v_answers flt evp segs xs models `pw.evaluate_v(xs).collect()`;
@@ -25,6 +25,19 @@ Proof. exact ev_v_sorted_F. Qed.
 (* the only panic is the documented one *)
 Theorem C12_empty : forall (P : Type) (evp : P -> F -> F) (xs : list F), ev_v_answers flt evp [] xs = None.
 Proof. exact ev_v_empty. Qed.
+
+(* "lazily, in order", the part a model can carry: the k-th value depends on the first k+1 arguments only - the answers to
+   xs ++ ys begin with exactly the answers to xs, for every continuation ys (so a consumer that stops early has seen what it would
+   have seen had the input ended there; nothing about a later argument - not even one that would make a later lookup fail - can
+   change an earlier value).  That the Rust iterator also PULLS no more than k+1 inputs before yielding value k is an
+   operational fact about the adaptor and is observed by the pull-counting test of the correspondence run. *)
+Theorem C12_online : forall (P : Type) (evp : P -> F -> F) (segs : list (seg F P)) (xs ys : list F) (l : list F),
+  ev_v_answers flt evp segs (xs ++ ys) = Some l ->
+  exists l1 l2, ev_v_answers flt evp segs xs = Some l1 /\ l = l1 ++ l2 /\ length l1 = length xs.
+Proof. intros P evp segs xs ys l. exact (ev_v_online F P flt F evp segs xs ys l). Qed.
+Theorem C12_online_firstn : forall (P : Type) (evp : P -> F -> F) (segs : list (seg F P)) (xs ys : list F) (l : list F),
+  ev_v_answers flt evp segs (xs ++ ys) = Some l -> ev_v_answers flt evp segs xs = Some (firstn (length xs) l).
+Proof. intros P evp segs xs ys l. exact (ev_v_online_firstn F P flt F evp segs xs ys l). Qed.
 
 Example C12_example :
   let segs := [(of_bits 4607182418800017408, 10%Z); (of_bits 4611686018427387904, 20%Z); (of_bits 4613937818241073152, 30%Z)] in
